@@ -18,6 +18,7 @@ package sched
 import (
 	"bytes"
 	"fmt"
+	mrand "math/rand/v2"
 	"runtime"
 	"strconv"
 	"sync"
@@ -59,6 +60,7 @@ type Thread struct {
 	resume  chan struct{}
 	point   string // description of the pending point
 	panicV  interface{}
+	rng     *mrand.ChaCha8
 }
 
 type event struct {
